@@ -21,7 +21,7 @@ def pool_file(pool, chars=ALPHA5):
 
 
 def run_instance(chk, name, pool, maxlen, maxtable, chars=ALPHA5, method_sets=(("GET",),), req_methods=("GET",),
-                 timeout=1800, family="match", only=None):
+                 timeout=1800, family="match", only=None, harness_env=None):
     pd = pool_file(pool, chars)
     out = os.path.join(core.scratch(), "match-%s.ndjson" % name)
     import json
@@ -35,7 +35,7 @@ def run_instance(chk, name, pool, maxlen, maxtable, chars=ALPHA5, method_sets=((
                            timeout=timeout, keep_lines=False, line_cb=cb)
     chk.expect_holds(res, "Lookup = Select (%s)" % name)
     chk.add_tlc(res, "%s: pool=%d maxlen=%d tables<=%d chars=%s methods=%s" % (name, len(pool), maxlen, maxtable, "".join(chars), list(req_methods)))
-    s = core.run_harness([family, "replay", out], timeout=3600)
+    s = core.run_harness([family, "replay", out], timeout=3600, env=harness_env)
     chk.absorb(s, family, only=only)
     os.remove(out)
     return res, s
@@ -77,6 +77,9 @@ def run(chk):
     # the cache by method + path), requests for both methods, tables of up to 3 routes
     run_instance(chk, "iii-methods", ["/a/{x}", "/a/{x:dig}", "/a/{x}/b", "/{x}/{y}", "/a/1"] + (["/a[/{x}]", "/*"] if thorough else []),
                  4, 3, chars=("/", "a", "1", "b"), method_sets=(("GET",), ("POST",), ("GET", "POST")), req_methods=("GET", "POST"), only=SEL)
+    # HEAD: a route that allows HEAD wins over the GET fallback, whichever tier either of them lives in
+    run_instance(chk, "iv-head", ["/a/{x}", "/a/1", "/{x}/{y}", "/a[/{x}]"], 4, 3, chars=("/", "a", "1"),
+                 method_sets=(("GET",), ("HEAD",), ("GET", "HEAD")), req_methods=("GET", "HEAD"), only=SEL)
     chk.exhaustive = True
     negs(chk, None if thorough else ["D_IrregularOverwrite"])
     recorded(chk, 400 if thorough else 40)
